@@ -5,18 +5,24 @@ package trust
 // Contracts for /verif (govc).  No code here.
 //
 // Ghost clock (assumed semantics of context.WithTimeout / time.After / select,
-// see externals.spec and DESIGN.md C20): `now` advances by an arbitrary amount
-// >= 0 during every wrapped Get, `deadline` = now at entry + Timeout; a wait of
-// d > 0 ends at now+d (timer) or at the deadline, whichever comes first.
+// see externals.spec and DESIGN.md C20): time is counted from the entry of Get
+// (`now` = 0); `now` advances by an arbitrary amount >= 0 during every wrapped
+// Get; `deadline` = entry + Timeout is the instant the statement calls "the
+// configured timeout"; a blocking select returns with an earliest-ready case
+// (a timer d > 0 at now+d, <-ctx.Done() at the context's deadline).
 
 //@ func (*RetryHTTPSGetter).Get(n, url) (header, body, err)
 //@   requires n != nil && n.Getter != nil
 //@   requires 0 < n.MaxRetryDelay && n.MaxRetryDelay < 0x2000000000000000 && 0 <= n.Timeout && n.Timeout < 0x2000000000000000
+//@   ghost now = 0
+//@   ghost deadline = n.Timeout
 //@   ghost successes = 0
 //@   ghost attempts = 0
 //@   ghost lastreturn = 0
 //@   at After: requires[wait-bound] arg0 > 0 && arg0 <= n.MaxRetryDelay
-//@   loop 0: invariant 0 < loopvar("time.Duration") && (loopvar("time.Duration") == 2000000000 || loopvar("time.Duration") <= n.MaxRetryDelay) && successes == 0 && 0 <= now && now <= 0x4000000000000000 && deadline <= 0x4000000000000000
+//@   at HTTPSGetter.Get: requires[no-attempt-after-deadline] now <= deadline
+//@   loop 0: invariant 0 < loopvar("time.Duration") && (loopvar("time.Duration") == 2000000000 || loopvar("time.Duration") <= n.MaxRetryDelay)
+//@   loop 0: invariant successes == 0 && 0 <= now && now <= deadline && ctxdeadline == deadline
 //@   ensures[first-success] err == nil ==> successes == 1 && get[0].happened && !get[1].happened && after(get[0], err == nil)
 //@ |       && header == after(get[0], header) && body == after(get[0], body)
 //@   ensures[failure] err != nil ==> successes == 0 && header == nil && body == nil
